@@ -111,7 +111,7 @@ GOOD_HASH2 = "xVfVq4pvFosvOQb0IVaPMkK22u0ZF2Ki7XB9yRsGbnEbL6WXhQCdpOwDV62HZ0MS5R
 
 
 def toml_str(s):
-    return '"' + s.replace("\\", "\\\\").replace('"', '\\"') + '"'
+    return '"' + s.replace("\\", "\\\\").replace('"', '\\"').replace("\n", "\\n").replace("\r", "\\r").replace("\t", "\\t") + '"'
 
 
 def gen_config_case(r):
@@ -121,7 +121,9 @@ def gen_config_case(r):
         if x < 0.93:
             return r.choice([GOOD_HASH, GOOD_HASH2])
         return r.choice([GOOD_HASH[:-1], GOOD_HASH + "A", GOOD_HASH[:-1] + "x", GOOD_HASH[:-1] + "B", "short",
-                         GOOD_HASH.replace("/", "-"), "", GOOD_HASH[:-2] + "=="])
+                         GOOD_HASH.replace("/", "-"), "", GOOD_HASH[:-2] + "==",
+                         # a well-formed hash with blanks around it is NOT a well-formed hash (argon2 would never accept it)
+                         GOOD_HASH + "\n", " " + GOOD_HASH, GOOD_HASH + " ", "\t" + GOOD_HASH2, GOOD_HASH2 + "\r\n"])
     def uname():
         if r.random() < 0.9:
             return r.choice(["matszpk", "lucas", "ala", "é", "n" * 200])
@@ -256,13 +258,16 @@ def run_hash_family(tier, r, res):
         calls.append(("verify", p[:-1], h, "false"))
         calls.append(("verify", p.swapcase() if p.swapcase() != p else p + " ", h, "false"))
         calls.append(("vhash", h, None, "true"))
+        for bad in (h + " ", " " + h, h + "\n", "\t" + h, h[:-1], h + "A", h[:40] + " " + h[41:]):
+            calls.append(("vhash", bad, None, "false"))
     p2 = runner.WORK + "/fn-C20-verify.txt"
     open(p2, "w").write("\n".join(("verify %s %s" % (esc(c[1]), esc(c[2]))) if c[0] == "verify" else "vhash " + esc(c[1])
                                     for c in calls) + "\n")
     r2 = runner.sh([runner.HARNESS, "fn", p2], timeout=1800)
     # the model agrees on the shape of every generated hash
     p3 = runner.WORK + "/fn-C20-vhash-model.txt"
-    open(p3, "w").write("\n".join("vhash " + esc(h) for h in hashes) + "\n")
+    vcalls = [c for c in calls if c[0] == "vhash"]
+    open(p3, "w").write("\n".join("vhash " + esc(c[1]) for c in vcalls) + "\n")
     r3 = runner.sh([runner.MODEL, "fn", p3], timeout=600)
     out = r2.stdout.split("\n")
     bad = 0
@@ -272,11 +277,11 @@ def run_hash_family(tier, r, res):
             if bad <= 3:
                 res["mismatches"].append({"family": "hash", "call": list(c[:3]), "impl": a, "model": c[3],
                                           "oracle_fail": True, "detail": a[:40]})
-    for h, a in zip(hashes, r3.stdout.split("\n")):
-        if a != "true":
+    for c, a in zip(vcalls, r3.stdout.split("\n")):
+        if a != c[3]:
             bad += 1
-            res["mismatches"].append({"family": "hash", "call": ["vhash-model", h], "impl": "true", "model": a,
-                                      "oracle_fail": False, "detail": "model rejects generated hash"})
+            res["mismatches"].append({"family": "hash", "call": ["vhash-model", c[1]], "impl": c[3], "model": a,
+                                      "oracle_fail": False, "detail": "model and oracle disagree on the shape of a hash"})
     res["families"]["hash"] = {"calls": len(calls) + len(hashes), "mismatches": bad}
     res["calls"] += len(calls) + len(hashes)
 
